@@ -24,7 +24,7 @@ func init() {
 	register("C07", &propDef{
 		Title: "Accepted remote addresses always satisfy the documented transport policy",
 		Rules: []func(*Checker){ruleC07Routes, ruleC07Schemes, ruleC07Query, ruleC07ArchiveSuffix, ruleTypePrefixAnchored("C07.typeprefix"), ruleHostOpaque("C07.hostopaque"), ruleC06SubpathOnly("C07.subpath"), ruleAddrErrors("C07.errors"), ruleNameAgreement("C07.names", "sourceaddrs"), ruleURLFields("C07.urlfields"), ruleTypeSchemeRefusalOnlyForStrings("C07.ctortype"),
-			aliasRuleFiltered(ruleC06FinalPattern, "C06.finalpattern", "C07.finalclass", 1, func(o Oblig) bool { return strings.Contains(o.Key, "parser's groups") })},
+			aliasRuleFiltered(ruleC06FinalPattern, "C06.finalpattern", "C07.finalclass", 1, func(o Oblig) bool { return strings.Contains(o.Key, "parser's groups") }), ruleShorthandGetsWhole("C07.shorthandwhole")},
 		NotDecided: []string{
 			"'every address that follows the documented grammar is accepted' (needs the grammar)",
 			"shorthand expansion correctness; query-argument counting beyond the presence of the tests (map contents)",
@@ -32,7 +32,7 @@ func init() {
 	})
 	register("C11", &propDef{
 		Title: "Relative resolution stays inside the package and follows path algebra",
-		Rules: []func(*Checker){ruleC11Escape, ruleC11Same, ruleC11JoinOrder, ruleC06SubpathOnly("C11.local"), ruleC11LocalForm, ruleLiteralAgreement("C11.fields", "sourceaddrs", nil), ruleJoinOperandsAsGiven("C11.joinraw"), ruleC11Absolute},
+		Rules: []func(*Checker){ruleC11Escape, ruleC11Same, ruleC11JoinOrder, ruleC06SubpathOnly("C11.local"), ruleC11LocalForm, ruleLiteralAgreement("C11.fields", "sourceaddrs", nil), ruleJoinOperandsAsGiven("C11.joinraw"), ruleC11Absolute, aliasRule(ruleSanitisersAgree("C06.sanagree"), "C06.sanagree", "C11.sanagree", 1)},
 		NotDecided: []string{
 			"the path algebra itself (segment counting, composition of successive resolutions): path.Join / path.Clean are trusted library semantics",
 		},
@@ -2229,6 +2229,36 @@ func ruleC11Absolute(c *Checker) {
 			if !asserted {
 				c.fail(R, key, "absolute returned unchanged", p.Pos(fn.Pos()), "no path returns the second argument itself with a nil error")
 			}
+		}
+	}
+}
+
+// ruleShorthandGetsWhole — what a shorthand expands is the address as given.
+func ruleShorthandGetsWhole(id string) func(*Checker) {
+	return func(c *Checker) {
+		c.rule(id, "Where the remote-address parser tries its shorthand expanders (the calls through a func(string) (string, bool, error) value), each is handed the parser's own string parameter: the address as written, type prefix included. An expander shown only the part behind `type::` matches `hg::github.com/org/repo`, and since its replacement brings a type of its own the type the caller wrote is never looked up — an address with an unknown or contradicting type is accepted as a git repository.", 1)
+		p := c.P
+		n := 0
+		for _, fn := range p.Funcs {
+			if !p.InModule(fn) || !strings.HasSuffix(pkgPathOf(p, fn), addrPkg) || fn.Blocks == nil {
+				continue
+			}
+			for _, ci := range callsIn(fn) {
+				cc := ci.Common()
+				if cc.IsInvoke() || cc.StaticCallee() != nil || len(cc.Args) != 1 {
+					continue
+				}
+				sig, ok := cc.Value.Type().Underlying().(*types.Signature)
+				if !ok || sig.Params().Len() != 1 || sig.Results().Len() != 3 || !isStringType(sig.Params().At(0).Type()) || !isStringType(sig.Results().At(0).Type()) || !isBoolType(sig.Results().At(1).Type()) || !isErrorType(sig.Results().At(2).Type()) {
+					continue
+				}
+				n++
+				prm, isParam := canon(cc.Args[0]).(*ssa.Parameter)
+				c.check(isParam && prm.Parent() == outerFn(p, fn), id, p.FuncName(fn), "expander argument", p.Pos(ci.Pos()), "the expander is given the parser's parameter", "the expander is given "+cc.Args[0].String()+", not the address as the caller wrote it")
+			}
+		}
+		if n == 0 {
+			c.anchorMissing(id, "calls of shorthand expanders")
 		}
 	}
 }
